@@ -35,6 +35,9 @@ use fvh::lift::{arch, btr_str, bytes_hex, exec_btr, hex_bytes, scalars_of, MachS
 use fvh::{run_main, Emit, Rng, Tier};
 use std::collections::BTreeMap;
 
+#[path = "c06/machine.rs"]
+mod machine;
+
 struct Req {
     arch: String,
     base: u64,
@@ -452,14 +455,48 @@ fn answer(line: &str) -> String {
     }
     let ora: Vec<String> = oracle.iter().map(|(a, b)| format!("(at 0x{:x} {})", a, b)).collect();
     let tr = worklist(a.as_ref(), &mem, &r, &opts);
+    let mach = machine_trace(&r);
     format!(
-        "fn {} | trace {} | post {} | oracle {} | tr {}",
+        "fn {} | trace {} | post {} | oracle {} | tr {} | machine {}",
         fn_text,
         trace.iter().map(|a| format!("0x{:x}", a)).collect::<Vec<_>>().join(","),
         post,
         ora.join(" "),
-        tr.join(" ")
+        tr.join(" "),
+        mach.iter().map(|a| format!("0x{:x}", a)).collect::<Vec<_>>().join(",")
     )
+}
+
+/// the independent reference machine (src/bin/c06/machine.rs) on the request's raw bytes and state
+fn machine_trace(r: &Req) -> Vec<u64> {
+    let reg = |n: &str| -> u64 {
+        r.state.regs.iter().find(|(k, _)| k == n).and_then(|(_, v)| v.value_u64()).unwrap_or(0)
+    };
+    let mut mem = machine::Mem::from_regions(&r.state.mem);
+    match r.arch.as_str() {
+        "x86" | "amd64" => {
+            let amd64 = r.arch == "amd64";
+            let names: [&str; 8] = if amd64 {
+                ["rax", "rcx", "rdx", "rbx", "rsp", "rbp", "rsi", "rdi"]
+            } else {
+                ["eax", "ecx", "edx", "ebx", "esp", "ebp", "esi", "edi"]
+            };
+            let mut regs = [0u64; 8];
+            for (i, n) in names.iter().enumerate() {
+                regs[i] = reg(n);
+            }
+            let flags = (reg("CF") == 1, reg("ZF") == 1, reg("SF") == 1, reg("OF") == 1);
+            machine::x86_trace(&r.code, r.base, r.entry, regs, flags, &mut mem, amd64, r.steps)
+        }
+        "mips" | "mipsel" => {
+            let mut regs = [0u32; 32];
+            for (i, n) in MIPS_REGS.iter().enumerate() {
+                regs[i] = reg(n) as u32;
+            }
+            machine::mips_trace(&r.code, r.base, r.entry, regs, &mut mem, r.arch == "mipsel", r.steps)
+        }
+        _ => Vec::new(),
+    }
 }
 
 /// `next=0x…` + registers + memory of a post line, as the next machine state
